@@ -306,26 +306,9 @@ def stepQuery (wh lim off parts : String) (sel : List String) (keys : List Strin
             || !(adjacentTie le ((isort le p.2).take (climit + 1)))
         -- classifiers of the open findings (known_findings.jsonl)
         let nanNull := ((List.range keys.length).map fun i => items.map fun it => it.1.getD i .null).any nanAndNull
-        -- open: Comparator<Option<&str>>::ordering of CmpGreaterThan is ascending on two present strings, so the
-        -- top-n path (which sorts by `ordering`) is wrong for ONE DESCENDING key over a string column with a NULL
-        let partRows := splitParts parts rows
-        let isStr (v : Val) : Bool := match v with | .str _ => true | _ => false
-        let descNullableStrTopN := decide (keys.length = 1) && (dirs.headD false) && partRows.any fun p =>
-          useTopN climit p.1 1 constant &&
-            (match keys.head? with
-             | some k =>
-               let vs := p.2.filterMap fun r => match eval i2fNative k.expr r with | .val v => some v | _ => none
-               vs.any (· == .null) && vs.any isStr
-             | none => false)
-        -- open: a comparison used as sort key has type NullableU8 when an operand is nullable: no fused type -> panic
-        let isCmpKey (e : Expr) : Bool := match e with | .cmp _ _ _ => true | _ => false
-        let nullableCmpKey := keys.any fun k => isCmpKey k.expr &&
-          partRows.any fun p => (exprCols k.expr).any fun c => p.2.any fun r => r.getD c .null == .null
-        let known := if nanNull then "\tC05-nan-null-tie"
-          else if nullableCmpKey then "\tC05-orderby-nullable-expr-key"
-          else if descNullableStrTopN then "\ttopn-desc-nullable-string" else ""
+        let known := if nanNull then "\tC05-nan-null-tie" else ""
         let model : String :=
-          if !determined || nanNull || nullableCmpKey || descNullableStrTopN then "?" else
+          if !determined || nanNull then "?" else
           match leftTree leaves with
           | none => "rows:[]"
           | some t =>
